@@ -742,6 +742,51 @@ def check_C10(ctx, w):
     # "Close (for every collection)": a second collection with pending writes of its own; FlushAll* of one collection, Close of both
     tests += aux_tests(ctx, ctx.q(150, 2000), nops=ctx.q(20, 35), cfgs=[(False, True), (True, True)], p_reopen=0.15, p_del=0.25)
     seq_pipeline(ctx, w, tests, ["Conf_C10", "Conf_X", "Conf_Drop"])
+    multi_model(ctx, w)
+
+
+MULTI_CFG = """SPECIFICATION Spec
+CONSTANTS
+  Slots = {%(slots)s}
+  KVals = {0, 1}
+  AVals = {0}
+  VVals = {0, 1}
+  BadV = 1
+  MaxBatch = 1
+  MaxOps = %(maxops)d
+  Cfgs <- AllCfgs
+  Thr = 1
+  Tmo = 1
+  WithFlusher = TRUE
+  WithSwitch = FALSE
+  WithGet = FALSE
+  WithHandle = FALSE
+  WithFlushOne = FALSE
+  WithDrop = TRUE
+  Dev = {%(dev)s}
+  BatchFilter <- NoBatch
+VIEW view
+INVARIANTS BothOK
+PROPERTIES CloseDurableA CloseDurableB Frame
+CHECK_DEADLOCK FALSE
+"""
+
+
+def multi_model(ctx, w):
+    """Design level, two collections in one database (spec/SodMulti.tla = two instances of SodImpl synchronised on Close,
+    abandon, Drop and the clock): all invariants for both, Close durable for both, frame; the deviation in which Close
+    flushes one collection only must break it."""
+    kw = dict(slots=ctx.q("1", "1, 2"), maxops=ctx.q(3, 4))
+    r = vlib.tlc("SodMulti", MULTI_CFG % dict(dev="", **kw), w.sub("multi"), workers=vlib.NCPU, timeout=1500, heap="10g")
+    if not r.completed:
+        raise vlib.Inconclusive("SodMulti.tla fails its own properties (model defect, not a verdict on the code):\n" + r.out[-2500:])
+    ctx.mc_states += r.distinct
+    ctx.mc_transitions += r.generated
+    ctx.extra_cov["two_collection_model_states"] = r.distinct
+    rd = vlib.tlc("SodMulti", MULTI_CFG % dict(dev='"CloseFlushesOne"', slots="1", maxops=3), w.sub("multi-dev"), workers=4, timeout=600, heap="4g")
+    ctx.extra_cov["two_collection_model_detects_partial_close"] = bool(rd.prop_violated or rd.violated)
+    log("  [SodMulti] two collections in one database: %d distinct states, invariants of both, Close durable for both, frame: hold; "
+        "deviation CloseFlushesOne breaks it: %s" % (r.distinct, bool(rd.prop_violated or rd.violated)))
 
 
 def check_C17(ctx, w):
